@@ -169,12 +169,18 @@ impl<P: SingleObjectiveProblem> Selection<P> for DECurrentToBest {
         let best = f::best(population).wrap_err("population is empty")?;
         let selection = population
             .iter()
-            .flat_map(|individual| {
+            .enumerate()
+            .flat_map(|(index, individual)| {
                 let mut selection = vec![individual, best];
 
-                // Sample only individuals randomly that are not `individual`
-                let remaining_population: Vec<_> =
-                    population.iter().filter(|&i| i != individual).collect();
+                // Sample only individuals randomly that are not `individual`.
+                // Compare positions and not values, because copies of `individual` are valid choices.
+                let remaining_population: Vec<_> = population
+                    .iter()
+                    .enumerate()
+                    .filter(|&(i, _)| i != index)
+                    .map(|(_, individual)| individual)
+                    .collect();
 
                 selection.extend(remaining_population.choose_multiple(rng, size));
                 selection
